@@ -186,7 +186,11 @@ def single_laws(ctx, rng, d, spec, tag=None):
       kept.append(r)
     if not ok2 and 'rej' not in fired:
       fired.add('rej')
-      ctx.violation('apply-not-idempotent', f'{tf_prefix("rej", v)}{name}:reapply-rejected',
+      rule = ''
+      if isinstance(spec, T.Union):
+        why = S.why_rejected(spec, r) or 'unexplained'
+        rule = ':' + (why[len('Union.'):].split('/', 1)[0] if why.startswith('Union.') else why)
+      ctx.violation('apply-not-idempotent', f'{tf_prefix("rej", v)}{name}:reapply-rejected{rule}',
                     f'{spec!r}: apply({short(v)}) -> {short(r)}, which is rejected: {r2!r:.300}',
                     wit(witness, value=short(v)))
     elif ok2 and not same(r, r2) and 'diff' not in fired:
@@ -215,13 +219,15 @@ def single_laws(ctx, rng, d, spec, tag=None):
 
 
 def default_accepted(spec, counters=None):
+  """(accepted?, result, a user transform changed or refused the default?)"""
   d = spec.default
-  ok, r = S.accepts(spec, d, allow_partial=True)
+  ok, r, seen = S.accepts_tracked(spec, d, allow_partial=True)
   if ok and not has_missing(d):
     if counters is not None:
       counters['default_strict_checks'] += 1
-    ok, r = S.accepts(spec, d)
-  return ok, r
+    ok, r, seen2 = S.accepts_tracked(spec, d)
+    seen = seen or seen2
+  return ok, r, seen
 
 
 def default_law(ctx, spec, origin, witness, control=None, prefix=''):
@@ -235,8 +241,13 @@ def default_law(ctx, spec, origin, witness, control=None, prefix=''):
   c['default_checks'] += 1
   d = spec.default
   ctx.label = f'apply-default:{name}'
-  ok, r = default_accepted(spec, c)
+  ok, r, seen = default_accepted(spec, c)
   ctx.label = None
+  if not ok and seen:
+    # E.g. a transform inherited from the base refuses the child's default:
+    # decided by user code.
+    c['dontcare_transform_visible'] += 1
+    return
   if not ok:
     reason = S.why_rejected(spec, d) or 'unexplained'
     mech = name if origin == 'fresh' else 'after-extend:' + default_category(reason)
@@ -522,7 +533,10 @@ def localize(ctx, a, b, v, depth=0):
   b accepts v, a rejects v."""
   def bad(x, y, w):
     try:
-      return (x.is_compatible(y) and S.accepts(y, w)[0] and not S.accepts(x, w)[0])
+      if not x.is_compatible(y):
+        return False
+      ok, _, seen = S.accepts_tracked(y, w)
+      return ok and not seen and not S.accepts(x, w)[0]
     except Exception:  # pylint: disable=broad-except
       return False
   if depth > 8 or a.frozen or v is None:
@@ -773,20 +787,46 @@ def union_counterpart(base, spec):
     return None
 
 
+def union_candidate_of_class(union, spec, depth=0):
+  """First non-Union candidate of `union` (nested Unions flattened) of the
+  class of `spec` (an Object spec: of a base class of its class)."""
+  if depth > 8:
+    return None
+  for x in union.candidates:
+    if isinstance(x, T.Union):
+      r = union_candidate_of_class(x, spec, depth + 1)
+      if r is not None:
+        return r
+    elif type(x) is type(spec):
+      if isinstance(x, T.Object):
+        try:
+          if not issubclass(spec.cls, x.cls):
+            continue
+        except Exception:  # pylint: disable=broad-except
+          continue
+      return x
+  return None
+
+
 def localize_ext(ext, child, base, v, depth=0, through_union=False):
   """Descends to the innermost (extended, child, base, value) where the extended
   spec accepts the value and the base rejects it; `child` is the corresponding
   part of the un-extended child spec (None when it has none)."""
   def bad(e, b, w):
-    return S.accepts(e, w)[0] and not S.accepts(b, w)[0]
+    ok, _, seen = S.accepts_tracked(e, w)
+    return ok and not seen and not S.accepts(b, w)[0]
   same_kind = lambda x, cls: x if isinstance(x, cls) else None
   if (through_union and depth <= 8 and v is not None and not ext.frozen
       and isinstance(ext, T.Union) and isinstance(base, T.Union)):
     # Candidate by candidate, paired as extend() pairs them.
-    for ec in ext.candidates:
-      bc = union_counterpart(base, ec)
-      if bc is not None and not isinstance(bc, T.Union) and bad(ec, bc, v):
-        cc = union_counterpart(child, ec) if isinstance(child, T.Union) else None
+    # (A Union extends a Union candidate-wise: each candidate extends the first
+    # base candidate of its own class.)
+    aligned = (isinstance(child, T.Union) and len(child.candidates) == len(ext.candidates)
+               and all(type(x) is type(y) for x, y in zip(child.candidates, ext.candidates)))
+    for i, ec in enumerate(ext.candidates):
+      cc = child.candidates[i] if aligned else None
+      bc = union_candidate_of_class(base, ec)
+      if bc is not None and bad(ec, bc, v):
         return localize_ext(ec, cc, bc, v, depth + 1, through_union)
   if depth > 8 or ext.frozen or v is None or isinstance(ext, T.Union):
     return ext, child, base, v
